@@ -957,3 +957,35 @@ Proof.
   - intros x A. apply life_entities_alive. assumption.
   - pose proof (filter_len_le (unmarked w) (l_entities (sl_life w))). lia.
 Qed.
+
+(* ------------------------------------------------------------------ *)
+(* C20: the order of the serialised records is the order of the
+   (&entities, &markers) join, which is ascending in the entity index and
+   therefore a function of membership alone *)
+Lemma flat_map_opt_fst {A B C} (f : A -> bool) (g : A -> B) (h : A -> C) (l : list A) :
+  map fst (flat_map (fun p => if f p then [(g p, h p)] else []) l) = map g (filter f l).
+Proof.
+  induction l as [|a l IH]; [reflexivity|]. cbn [flat_map filter]. rewrite map_app, IH.
+  destruct (f a); reflexivity.
+Qed.
+
+Lemma join_marked_entities w :
+  map fst (join_marked w) =
+  map (fun p : N * N => (fst p, top (cell (sl_life w) (fst p))))
+      (filter (fun p : N * N => occupied (cell (sl_life w) (fst p))) (NM.elements (sl_markers w))).
+Proof.
+  unfold join_marked.
+  exact (flat_map_opt_fst (fun p : N * N => occupied (cell (sl_life w) (fst p)))
+           (fun p : N * N => (fst p, top (cell (sl_life w) (fst p)))) (fun p : N * N => snd p) _).
+Qed.
+
+Theorem join_marked_ascending w : Sorted (fun a b : entity => fst a < fst b) (map fst (join_marked w)).
+Proof.
+  rewrite join_marked_entities. apply map_filter_sorted; [reflexivity|].
+  pose proof (NM.elements_3 (sl_markers w)) as H.
+  induction H as [|a l Hs IH Hhd]; constructor; [assumption|].
+  destruct Hhd; constructor. assumption.
+Qed.
+
+Theorem serialize_order w nc d : serialize w nc = Some d -> map fst d = map snd (join_marked w).
+Proof. intros H. unfold serialize in H. apply ser_all_spec in H. exact (Forall2_map_fst_snd _ _ _ H). Qed.
